@@ -19,7 +19,7 @@ if [ ! -f $B/.ok ]; then
   (cd "$REPO" && go build -tags verif -o $B/plain/bin/ ./cmd/mrp ./cmd/mrjob ./cmd/mro ./cmd/mrg) >&2
   cp -r "$REPO/jobmanagers" "$REPO/adapters" $B/plain/
   sed "s#@REPO@#$REPO#" $VERIF/harness/go.mod.tmpl > $B/harness.mod
-  cat "$REPO/go.sum" $VERIF/harness/go.sum.extra > $B/harness.sum 2>/dev/null || cp "$REPO/go.sum" $B/harness.sum
+  cp $VERIF/harness/go.sum $B/harness.sum
   (cd $VERIF/harness && go build -tags verif -modfile=$B/harness.mod -o $B/harness/ ./cmd/...) >&2
   touch $B/.ok
   # drop stale builds (keep the 3 most recent)
